@@ -8,6 +8,8 @@ From QV.Enc Require EncModel EncSpec.
 From QV.Tree Require TreeModel QTree TreeSpec.
 From QV.Harr Require HarrModel HarrSpec.
 From QV.Str Require StrModel StrSpec.
+From QV.Base Require Word.
+From QV.HashFn Require FnvModel MurmurModel Md5Model FnvSpec MurmurSpec Md5Spec.
 Extraction Blacklist List String Int.
 Extraction "../ocaml/gen/enc_model.ml" Res.num_anchor
    EncModel.url_encode EncModel.url_dec_buf EncModel.url_decode EncModel.hex_encode EncModel.hex_dec_buf EncModel.hex_decode
@@ -23,3 +25,6 @@ Extraction "../ocaml/gen/str_model.ml" Res.num_anchor
    StrSpec.trim_spec StrSpec.trim_head_spec StrSpec.trim_tail_spec StrSpec.unchar_spec StrSpec.replace_tok_spec StrSpec.replace_str_spec StrSpec.strcpy_spec
    StrSpec.strncpy_spec StrSpec.gets_spec StrSpec.upper_spec StrSpec.lower_spec StrSpec.tokenize_spec StrSpec.strtok_spec
    StrModel.qstr_comma_number StrSpec.comma_spec.
+Extraction "../ocaml/gen/hashfn_model.ml" Res.num_anchor
+   FnvModel.qhashfnv1_32 FnvModel.qhashfnv1_64 MurmurModel.qhashmurmur3_32 MurmurModel.qhashmurmur3_128 Md5Model.qhashmd5 Md5Model.qhashmd5_file
+   FnvSpec.fnv1_32 FnvSpec.fnv1_64 MurmurSpec.murmur3_x86_32 MurmurSpec.murmur3_x64_128 Md5Spec.md5 Word.le_bytes.
